@@ -273,12 +273,16 @@ def _sequence_to_qref(sequence, backend: SymbolicBackend):
 
 @_sequence_to_qref.register
 def _(sequence: ConstantSequence, backend: SymbolicBackend) -> ConstantSequenceV1:
-    return ConstantSequenceV1(type=sequence.type, multiplier=sequence.multiplier)
+    return ConstantSequenceV1(type=sequence.type, multiplier=backend.as_native(sequence.multiplier))
 
 
 @_sequence_to_qref.register
 def _(sequence: ArithmeticSequence, backend: SymbolicBackend) -> ArithmeticSequenceV1:
-    return ArithmeticSequenceV1(type=sequence.type, initial_term=sequence.initial_term, difference=sequence.difference)
+    return ArithmeticSequenceV1(
+        type=sequence.type,
+        initial_term=backend.as_native(sequence.initial_term),
+        difference=backend.as_native(sequence.difference),
+    )
 
 
 @_sequence_to_qref.register
